@@ -594,22 +594,25 @@ def _no_continue_in_while(stmts, inwhile=False):
     """random while loops count upwards and increment last: a `continue` would skip the increment and spin to the
     iteration limit, which says nothing about async blocks and takes seconds"""
     out = []
-    for s_ in stmts:
+    for pos, s_ in enumerate(stmts):
         k = s_["s"]
         if k == "continue" and inwhile:
             out.append(expr(call("length", lit(vstr("c")))))
             continue
+        if k in ("set", "decl") and inwhile and len(s_["n"]) == 2 and s_["n"][0] == "i" and s_["n"][1].isdigit() and not (inwhile == "top" and pos == len(stmts) - 1):
+            out.append(expr(call("length", lit(vstr("i")))))      # only the loop's own last statement moves its counter
+            continue
         s_ = dict(s_)
         if k == "if":
-            s_["t"] = _no_continue_in_while(s_["t"], inwhile)
-            s_["f"] = _no_continue_in_while(s_["f"], inwhile)
+            s_["t"] = _no_continue_in_while(s_["t"], inwhile and "nested")
+            s_["f"] = _no_continue_in_while(s_["f"], inwhile and "nested")
         elif k == "while":
-            s_["b"] = _no_continue_in_while(s_["b"], True)
+            s_["b"] = _no_continue_in_while(s_["b"], "top")
         elif k == "for":
             s_["b"] = _no_continue_in_while(s_["b"], False)
         elif k == "switch":
-            s_["cases"] = [dict(c, b=_no_continue_in_while(c["b"], inwhile)) for c in s_["cases"]]
-            s_["d"] = _no_continue_in_while(s_["d"], inwhile)
+            s_["cases"] = [dict(c, b=_no_continue_in_while(c["b"], inwhile and "nested")) for c in s_["cases"]]
+            s_["d"] = _no_continue_in_while(s_["d"], inwhile and "nested")
         if k in ("decl", "set") and s_["x"]["e"] == "async":
             s_["x"] = async_(_no_continue_in_while(s_["x"]["b"], False))
         out.append(s_)
